@@ -2,6 +2,10 @@
    the same function of their elements: uniformity is built in), and the guard. *)
 From C14 Require Import Base.
 
+(* a generalized boolean is true when it is not nil; test_app / pred_app are that reading of the answer of
+   the function actually called (answer (c_truth c) ...), whatever object stands for "true" *)
+Definition truthy (g : gbool) : bool := not_nil_g g.
+
 (* which element matches: the item under :test / :test-not (default eql) after :key, or the predicate *)
 Definition s_is_if (f : fname) : bool :=
   match f with
@@ -405,5 +409,5 @@ Definition in_form (f : repform) (s : seqin) : seqin :=
 Definition with_form (f : repform) (c : call) : call :=
   mkCall (c_fn c) (c_item c) (c_new c) (c_pred c) (in_form f (c_seq c)) (in_form f (c_seq2 c))
          (c_start c) (c_end c) (c_end_nil c) (c_start2 c) (c_end2 c) (c_key c) (c_test c) (c_count c) (c_from_end c)
-         (c_op c) (c_init c) (c_nseq c) (c_flag c).
+         (c_op c) (c_init c) (c_nseq c) (c_flag c) (c_truth c).
 
